@@ -12,10 +12,12 @@ import (
 	"bytes"
 	"fmt"
 	"math/big"
+	"reflect"
 	"runtime"
 	"strings"
 	"sync"
 	"testing"
+	"unsafe"
 
 	"github.com/onflow/crypto"
 	"github.com/onflow/crypto/hash"
@@ -135,6 +137,30 @@ func (w *c19World) snapshot() string {
 	}
 	b.Write(w.kmac.SumHash())
 	b.Write(w.shared.SumHash())
+	return b.String()
+}
+
+// rawObject returns a copy of the memory of the struct a key interface points to.  The BLS key structs hold the group
+// element by value (no pointers): "keys passed as arguments are left unmodified" is checked on the objects themselves,
+// not only on what they encode to (an operation that rewrites a key in another representation of the same element is a
+// write to shared memory, which the race detector cannot see when it happens in C).
+func rawObject(x any) []byte {
+	v := reflect.ValueOf(x)
+	if v.Kind() != reflect.Ptr || v.IsNil() {
+		return nil
+	}
+	n := int(v.Elem().Type().Size())
+	return append([]byte{}, unsafe.Slice((*byte)(v.UnsafePointer()), n)...)
+}
+
+// rawKeys is the memory of every BLS public key object of the world.
+func (w *c19World) rawKeys() string {
+	var b bytes.Buffer
+	for i := range w.pks {
+		b.Write(rawObject(w.pks[i]))
+	}
+	b.Write(rawObject(w.rem))
+	b.Write(rawObject(w.agg))
 	return b.String()
 }
 
@@ -269,8 +295,9 @@ func TestC19_RaceFree(t *testing.T) {
 		if g.Chance("many", 1, 4) {
 			G = g.Int("goroutinesMany", 9, 16)
 		}
+		ref := c19Build(g, raw).snapshot() // rendered from objects of its own: rendering encodes the keys
 		solo := c19Build(g, raw)
-		ref := solo.snapshot()
+		soloKeys := solo.rawKeys()
 		prog := make([][]c19Call, G)
 		want := make([][]string, G)
 		sharedUsers := 0
@@ -299,6 +326,16 @@ func TestC19_RaceFree(t *testing.T) {
 			sharedUsers += G
 			g.Class("stampede:" + c.name)
 		}
+		if solo.rawKeys() != soloKeys {
+			g.Fatalf("the memory of a public key object passed as argument changed during the calls run alone (%v): keys are left unmodified", func() (names []string) {
+				for gi := range prog {
+					for _, c := range prog[gi] {
+						names = append(names, c.name)
+					}
+				}
+				return
+			}())
+		}
 		if solo.snapshot() != ref {
 			g.Fatalf("a key, message, signature or hasher passed as argument was modified by the calls run alone")
 		}
@@ -310,6 +347,7 @@ func TestC19_RaceFree(t *testing.T) {
 		for run := 0; run < runs; run++ {
 			runtime.GOMAXPROCS([]int{2, 4, 16}[run%3])
 			w := c19Build(g, raw) // fresh objects: nothing was touched sequentially before the race
+			wKeys := w.rawKeys()
 			got := make([][]string, G)
 			start := &spinBarrier{n: int32(len(prog))}
 			var wg sync.WaitGroup
@@ -331,6 +369,9 @@ func TestC19_RaceFree(t *testing.T) {
 						g.Fatalf("%s returned %s when run concurrently with %d other goroutines, %s when run alone", prog[gi][j].name, got[gi][j], G-1, want[gi][j])
 					}
 				}
+			}
+			if w.rawKeys() != wKeys {
+				g.Fatalf("the memory of a public key object passed as argument changed during the concurrent calls: keys are left unmodified")
 			}
 			if w.snapshot() != ref {
 				g.Fatalf("a key, message, signature or shared hasher passed as argument was modified by the concurrent calls")
